@@ -317,6 +317,21 @@ def run(f, fixture, rep, cfg, tier):
               "find_entry_or_err no longer scans the index with a tag-equality predicate (calls: %s)" % sorted({c.decl.rsplit("::", 2)[-1] for c in fe.calls()})[:8], fe.span)
     rep.check(errs == {"TagNotFound"}, "R3", "find_entry|error", "an absent tag is TagNotFound", "find_entry_or_err yields %s" % sorted(errs), fe.span)
 
+    # ---- R9 the value types the accessors build keep what they are given ---------------------------------------------
+    rep.rule("R9", "FileDigest stores the digest text as given; FileMode conversions are C18's")
+    fdn = [b for b in f.body_list if b.path.endswith("header::FileDigest::new") and b.kind != "closure"]
+    if rep.anchor(len(fdn) == 1, "R9", "FileDigest::new"):
+        fb = fdn[0]
+        agf = agg_fields(fb, "header::FileDigest", TermBuilder(fb))
+        want = {"digest": fb.local_name(2) or "_2", "algo": fb.local_name(1) or "_1"}
+        rep.check(agf is not None and agf[0] == want,
+                  "R9", "FileDigest|verbatim", "FileDigest::new stores the digest text and algorithm it is given",
+                  "FileDigest::new stores %s (expected the arguments unchanged)" % (agf[0] if agf else None), fb.span)
+        # no in-place edit of the text either (make_ascii_lowercase, truncate, ...)
+        edits = [c.decl for c in fb.calls() if re.search(r"::(make_ascii_\w+|to_ascii_\w+|to_lowercase|to_uppercase|truncate|trim\w*|replace\w*|retain|remove|pop|push\w*|insert\w*|clear)$", c.decl)]
+        rep.check(not edits, "R9", "FileDigest|no-edit", "FileDigest::new does not edit the digest text", "FileDigest::new applies %s to the digest text: what the accessor returns is no longer what the header stores" % edits, fb.span)
+    rep.include("c18", f, fixture, cfg, tier, "R9", "FileMode conversion of the stored mode word", floor=20)
+
     # ---- R8 accessors hand the stored lists on as they are ----------------------------------------------------------
     # no accessor re-orders, de-duplicates, filters or truncates what it decoded: item i of the result is item i of the header
     rep.rule("R8", "accessors do not reorder / dedup / filter the stored lists")
